@@ -1,6 +1,7 @@
 package main
 
 import (
+	"bytes"
 	"encoding/json"
 	"errors"
 	"flag"
@@ -41,6 +42,9 @@ type captured struct {
 	typ    string
 	data   []byte
 	body   []byte
+	// the slices as handed over (transports queue them and send later)
+	refData []byte
+	refBody []byte
 }
 
 type capPlugin struct {
@@ -54,7 +58,7 @@ func (c *capPlugin) Type() string             { return c.typ }
 func (c *capPlugin) Start(chan<- error) error { return nil }
 func (c *capPlugin) Stop() error              { return nil }
 func (c *capPlugin) Enqueue(m *aio.Message) bool {
-	*c.got = append(*c.got, captured{plugin: c.typ, typ: string(m.Type), data: append([]byte{}, m.Data...), body: append([]byte{}, m.Body...)})
+	*c.got = append(*c.got, captured{plugin: c.typ, typ: string(m.Type), data: append([]byte{}, m.Data...), body: append([]byte{}, m.Body...), refData: m.Data, refBody: m.Body})
 	switch c.outcome {
 	case "full":
 		return false
@@ -410,6 +414,168 @@ func runCase(r *rand.Rand, met *metrics.Metrics, rep *vh.Report) *caseOut {
 	return out
 }
 
+// runStream: one router worker and one sender worker serve several promises
+// (batches of submissions, then hand-offs one after the other); every result
+// is kept and judged only after all of them have been produced, the way the
+// kernel consumes them (completions are read on a later tick, transports send
+// queued messages later): what was returned for one promise must not change
+// when the next one is processed.
+func runStream(r *rand.Rand, met *metrics.Metrics, rep *vh.Report) *caseOut {
+	out := &caseOut{sample: map[string]any{}}
+	sc := genSources(r)
+	targets := genTargets(r)
+	rt, err := router.New(nil, met, &router.Config{Size: 10, Workers: 1, Sources: sc.sources})
+	if err != nil {
+		out.violate("C19", "router:config-refused", fmt.Sprintf("router.New refused sources %v: %v", sc.sources, err))
+		return out
+	}
+	n := 2 + r.Intn(5)
+	type item struct {
+		p    *promise.Promise
+		cqe  *bus.CQE[t_aio.Submission, t_aio.Completion]
+		copy []byte
+	}
+	var items []*item
+	for i := 0; i < n; i++ {
+		tags := map[string]string{"other": "x"}
+		v := genTag(r, false)
+		if r.Intn(3) == 0 {
+			v = pick(r, "poll://workers/alpha", "poll://workers/bravo", "http://h/a", "http://h/b", "default")
+		}
+		tags[pick(r, sc.keys...)] = v
+		items = append(items, &item{p: &promise.Promise{Id: fmt.Sprintf("p%d", i), State: promise.Pending, Timeout: 1 << 40, Tags: tags}})
+	}
+	out.sample["stream"] = n
+	out.sample["source_keys"] = sc.keys
+	var alltags []map[string]string
+	for _, it := range items {
+		alltags = append(alltags, it.p.Tags)
+	}
+	out.sample["tags"] = alltags
+	pan := ""
+	func() {
+		defer func() {
+			if x := recover(); x != nil {
+				pan = fmt.Sprint(x)
+			}
+		}()
+		for i := 0; i < n; {
+			k := 1 + r.Intn(3)
+			if i+k > n {
+				k = n - i
+			}
+			var sqes []*bus.SQE[t_aio.Submission, t_aio.Completion]
+			for j := i; j < i+k; j++ {
+				sqes = append(sqes, &bus.SQE[t_aio.Submission, t_aio.Completion]{Id: fmt.Sprint("r", j), Callback: func(*t_aio.Completion, error) {}, Submission: &t_aio.Submission{Kind: t_aio.Router, Tags: map[string]string{"id": fmt.Sprint("r", j)}, Router: &t_aio.RouterSubmission{Promise: items[j].p}}})
+			}
+			cq := rt.Process(sqes)
+			if len(cq) != k {
+				out.violate("C19", "router:completions", fmt.Sprintf("%d completions for %d submissions", len(cq), k))
+				return
+			}
+			for j := 0; j < k; j++ {
+				items[i+j].cqe = cq[j]
+				if cq[j].Completion != nil && cq[j].Completion.Router != nil {
+					items[i+j].copy = append([]byte{}, cq[j].Completion.Router.Recv...)
+				}
+			}
+			i += k
+		}
+	}()
+	if pan != "" {
+		out.violate("C19", "router:panic", fmt.Sprintf("the router worker panicked (%s) on tags %v", pan, alltags))
+		return out
+	}
+	if len(out.vios) > 0 {
+		return out
+	}
+	rep.Events += n
+	var got []captured
+	col := &colAIO{}
+	w := sender.NewVerifWorker(col, met, targets, &capPlugin{typ: "http", got: &got, outcome: "success"}, &capPlugin{typ: "poll", got: &got, outcome: "success"})
+	type sent struct {
+		it   *item
+		from int
+		to   int
+		tk   *task.Task
+	}
+	var sents []sent
+	created := int64(1700000000000)
+	for _, it := range items {
+		d := vh.RouteOracle(it.p.Tags, sc.keys)
+		if d.Underspecified {
+			rep.Hit("router.underspecified")
+			continue
+		}
+		c := it.cqe
+		if c == nil || c.Error != nil || c.Completion == nil || c.Completion.Router == nil {
+			out.violate("C19", "router:error", fmt.Sprintf("router answered with an error for tags %v", it.p.Tags))
+			continue
+		}
+		if c.Completion.Router.Matched != d.Routed {
+			out.violate("C19", "router:match-differs", fmt.Sprintf("tags %v with sources %v: router matched=%v, the rule says routed=%v", it.p.Tags, sc.keys, c.Completion.Router.Matched, d.Routed))
+			continue
+		}
+		if !d.Routed {
+			continue
+		}
+		rep.Hit("router.routed.stream")
+		out.nontri = true
+		if !bytes.Equal(c.Completion.Router.Recv, it.copy) {
+			out.violate("C19", "router:recv-changed-after-return", fmt.Sprintf("promise %s tags %v: the router returned recv %s, and after it had routed the other promises the same completion reads %s", it.p.Id, it.p.Tags, it.copy, c.Completion.Router.Recv))
+			continue
+		}
+		if !vh.RecvMatches(c.Completion.Router.Recv, d) {
+			out.violate("C19", "router:recv-differs", fmt.Sprintf("tags %v: router produced recv %s, the rule says %+v", it.p.Tags, c.Completion.Router.Recv, d))
+			continue
+		}
+		tk := &task.Task{Id: "__invoke:" + it.p.Id, Counter: 1, Timeout: it.p.Timeout, State: task.Enqueued, RootPromiseId: it.p.Id, Recv: c.Completion.Router.Recv, Mesg: &message.Mesg{Type: message.Invoke, Root: it.p.Id, Leaf: it.p.Id}, CreatedOn: &created}
+		sub := &t_aio.SenderSubmission{Task: tk, Promise: it.p, ClaimHref: "http://srv/tasks/claim/" + tk.Id + "/1", CompleteHref: "http://srv/tasks/complete/" + tk.Id + "/1", HeartbeatHref: "http://srv/tasks/heartbeat/" + tk.Id + "/1"}
+		from := len(got)
+		func() {
+			defer func() {
+				if x := recover(); x != nil {
+					out.violate("C19", "sender:panic", fmt.Sprintf("the sender worker panicked (%v) on recv %s", x, tk.Recv))
+				}
+			}()
+			w.Process(&bus.SQE[t_aio.Submission, t_aio.Completion]{Id: "s", Callback: func(*t_aio.Completion, error) {}, Submission: &t_aio.Submission{Kind: t_aio.Sender, Tags: map[string]string{"id": "s"}, Sender: sub}})
+		}()
+		sents = append(sents, sent{it, from, len(got), tk})
+	}
+	// judged after everything was handed over
+	for _, sn := range sents {
+		want := resolve(sn.tk.Recv, targets)
+		if !(want.ok && (want.plugin == "http" || want.plugin == "poll")) {
+			if sn.to != sn.from {
+				out.violate("C19", "sender:misdirected", fmt.Sprintf("recv %s resolves to nothing deliverable but a message was handed to a transport", sn.tk.Recv))
+			}
+			continue
+		}
+		if sn.to-sn.from != 1 {
+			out.violate("C19", "sender:not-sent", fmt.Sprintf("recv %s resolves to %s %s but %d messages were handed to transports", sn.tk.Recv, want.plugin, want.data, sn.to-sn.from))
+			continue
+		}
+		g := got[sn.from]
+		rep.Hit("sender.stream-message-judged-after-later-handoffs")
+		if !bytes.Equal(g.refData, g.data) || !bytes.Equal(g.refBody, g.body) {
+			out.violate("C19,C20", "sender:message-changed-after-handoff", fmt.Sprintf("the message for task %s was handed to the transport as data %s body %s; after later hand-offs the same message reads data %s body %s", sn.tk.Id, g.data, clip(string(g.body)), g.refData, clip(string(g.refBody))))
+			continue
+		}
+		if g.plugin != want.plugin || !jsonEq(g.data, want.data) {
+			out.violate("C19", "sender:address-differs", fmt.Sprintf("recv %s (targets %v): handed to %s with data %s, the rule says %s with %s", sn.tk.Recv, keysOf(targets), g.plugin, g.data, want.plugin, want.data))
+		}
+		var body struct {
+			Task struct {
+				Id string `json:"id"`
+			} `json:"task"`
+		}
+		if json.Unmarshal(g.body, &body) != nil || body.Task.Id != sn.tk.Id {
+			out.violate("C19", "sender:body-task", fmt.Sprintf("body %s does not name task %s", clip(string(g.body)), sn.tk.Id))
+		}
+	}
+	return out
+}
+
 func keysOf(m map[string]*receiver.Recv) []string {
 	var ks []string
 	for k := range m {
@@ -459,7 +625,12 @@ func main() {
 			_ = os.WriteFile(*cur, []byte(fmt.Sprintf(`{"family":"route","index":%d,"seed":%d}`, i, *seed)), 0o644)
 		}
 		r := rand.New(rand.NewSource(vh.Mix(*seed, "route", i)))
-		o := runCase(r, met, rep)
+		var o *caseOut
+		if i%5 == 4 {
+			o = runStream(r, met, rep)
+		} else {
+			o = runCase(r, met, rep)
+		}
 		rep.Evaluations++
 		if o.nontri {
 			b, _ := json.Marshal(o.sample["tags"])
